@@ -25,6 +25,21 @@ import (
 	fix "github.com/onflow/fixed-point"
 )
 
+// ScaleFractional returns the fractional part `fractional`, written with `scale` fractional digits,
+// in units of 10^-targetScale, i.e. fractional * 10^(targetScale - scale).
+// If scale is not smaller than targetScale, fractional is returned as is.
+func ScaleFractional(fractional *big.Int, scale uint, targetScale uint) *big.Int {
+	if scale >= targetScale {
+		return fractional
+	}
+
+	scaleDiff := new(big.Int).SetUint64(uint64(targetScale - scale))
+	return new(big.Int).Mul(
+		fractional,
+		new(big.Int).Exp(big.NewInt(10), scaleDiff, nil),
+	)
+}
+
 func ConvertToFixedPointBigInt(
 	negative bool,
 	unsignedInteger *big.Int,
